@@ -172,8 +172,33 @@ func argText(x any) (out string) {
 	}
 }
 
+// varStub lets user code running under an execution strategy use the query's
+// variable context through the library's exported SETVAR/GETVAR functions.
+func varStub(set bool) genql.Function {
+	return func(q *genql.Query, current genql.Map, fo *genql.FunctionOptions, args []any) (any, error) {
+		id, err := stubID(args)
+		if err != nil {
+			return nil, err
+		}
+		idx, call := beginCall("var", id, argText(nil), false)
+		if ns := latencyFor(id, call); ns > 0 {
+			zzsim.Sleep(time.Duration(ns))
+		}
+		var out any
+		if set {
+			_, err = genql.SetVarFunc(q, current, fo, args[1:])
+		} else {
+			out, err = genql.GetVarFunc(q, current, fo, args[1:])
+		}
+		endCall(idx, "")
+		return out, err
+	}
+}
+
 func registerStubs(p *casefmt.StubPlan) {
 	plan = p
+	genql.RegisterFunction("setv", varStub(true))
+	genql.RegisterFunction("getv", varStub(false))
 	genql.RegisterFunction("fx", stubBody("fx", true))
 	genql.RegisterFunction("fid", stubBody("fid", false))
 	genql.RegisterImmediateFunction("imm", stubBody("imm", false))
